@@ -1,6 +1,32 @@
 """C09 — parallel block build is deterministic for any thread count and schedule."""
+import vlib
 from props import compcheck, gen_pool
 from props.subgen import Sub
+
+
+def fill_pass(run, tier, seed):
+    """the image cases once more with a different heap fill pattern: a byte of the image that is not a function of the input
+    (uninitialised memory saved by a block) makes the image depend on which worker's arena built the block"""
+    exe, _ = vlib.build_driver("asan")
+    if exe is None:
+        return
+    cases = [c for c in gen_pool.gen(tier, seed) if c.meta.get("kind") == "image"]
+    fill = {"ASAN_OPTIONS": vlib.ASAN_ENV["ASAN_OPTIONS"] + ":malloc_fill_byte=90:max_malloc_fill_size=268435456"}
+    a = vlib.run_cases(exe, cases, tag="impl-img", timeout_case=120)
+    b = vlib.run_cases(exe, cases, tag="impl-img-fill", env=fill, timeout_case=120)
+    nd = 0
+    for c in cases:
+        la, lb = a.get(c.name, {"lines": []})["lines"], b.get(c.name, {"lines": []})["lines"]
+        run.count((c.name, "fill"), nontrivial=True)
+        if la != lb and not nd:
+            nd += 1
+            k = next((i for i in range(min(len(la), len(lb))) if la[i] != lb[i]), 0)
+            run.violation("block dictionary image depends on the heap fill pattern (uninitialised memory in the image: it differs between "
+                          "runs, hence between thread counts): %s vs %s" % ((la[k] if k < len(la) else "-")[-60:], (lb[k] if k < len(lb) else "-")[-60:]),
+                          {"kind": "image", "operation": "save", "command": c.cmds[k][:200] if k < len(c.cmds) else "",
+                           "detail": "default ASan fill vs malloc_fill_byte=0x5a", "case": {"name": c.name, "cmds": [x[:300] for x in c.cmds]}},
+                          found_input=True)
+    run.oblige("block images are independent of the heap fill pattern (no uninitialised byte is saved)", nd == 0, "%d cases differ" % nd)
 
 
 def check(run, tier, seed, replay):
@@ -12,3 +38,5 @@ def check(run, tier, seed, replay):
                   assumptions=["purity of StringDictionaryHASHRPDAC's constructor (no shared mutable state) is a hypothesis of "
                                "C09_parbuild_deterministic (Section variable build_block); validated by C11's TSan runs and inventory",
                                "thread interleavings of the real build are sampled (seeded sleeps), those of the slot protocol model are all covered"])
+    if not replay:
+        fill_pass(run, tier, seed)
